@@ -20,7 +20,7 @@ SHARDS = {"quick": 16, "thorough": 16}
 FLOOR = {"quick": 1500, "thorough": 20000}
 REQUIRED_COUNTERS = ["roundtrips", "unions", "discriminated_unions", "payload_minimal", "payload_maximal", "as_alias", "as_field",
                      "as_list_item", "as_named_array_field", "unmapped_discriminator_checks", "broken_mapped_variant_checks", "cases_earlier_variant_accepts"]
-RULE = ("unions of 2-4 variants over a pool of 9 shapes in every order (quick: all ordered pairs + sampled triples; thorough: all up to 4), "
+RULE = ("unions of 2-4 variants over a pool of 10 shapes in every order (quick: all ordered pairs + sampled triples; thorough: all up to 4), "
         "with/without discriminator+mapping, as alias / field / list item x minimal and maximal payload of each variant; case = (union, "
         "position, payload); non-trivial = union has >=2 dict-accepting variants or a discriminator")
 ASSUMPTIONS = ["known finding is keyed by a predicate on the (union, payload) pair: an EARLIER variant's required keys are contained in the "
@@ -39,6 +39,9 @@ POOL = {
     "VarE": ({"type": "object", "required": ["x"], "properties": {"x": {"type": "number"}, "a": {"type": "string"}}}, {"x"}, {"x": 1.5}, {"x": 1.5, "a": "z"}),
     "VarF": ({"type": "object", "required": ["itemCount"], "properties": {"itemCount": {"type": "integer"}, "display-name": {"type": "string"}}},
              {"itemCount"}, {"itemCount": 3}, {"itemCount": 3, "display-name": "dn"}),
+    # required properties that all carry a default: 'required' still means the key must be present in a conforming payload
+    "VarG": ({"type": "object", "required": ["transport"], "properties": {"transport": {"type": "string", "default": "smtp"}, "to": {"type": "string"}}},
+             {"transport"}, {"transport": "smtp"}, {"transport": "relay", "to": "a@b"}),
     "str": ({"type": "string"}, None, "plain", "plain text"),
     "int": ({"type": "integer"}, None, 5, 12345),
     "strlist": ({"type": "array", "items": {"type": "string"}}, None, [], ["p", "q"]),
